@@ -476,9 +476,33 @@ pub mod x509 {
     #[derive(Clone, Debug, PartialEq)]
     pub struct X509 { pub pubkey_kid: u32, pub not_after: Asn1Time, pub san: Option<Vec<GeneralName>>, pub exts: Vec<X509Extension> }
     impl X509 {
+        /// Model encoding of a certificate "PEM": b'C', key id, notAfter-now as (days i32 LE, secs i32 LE),
+        /// number of SAN entries n, then n x (kind: 1 = dNSName / 2 = iPAddress v4, one value byte).
+        /// A 2-byte form (b'C', key id) is a certificate without SAN whose notAfter is now.
         pub fn from_pem(d: &[u8]) -> Result<Self, ErrorStack> {
             if d.len() < 2 || d[0] != b'C' { return Err(ErrorStack); }
-            Ok(X509 { pubkey_kid: d[1] as u32, not_after: Asn1Time { days: 0, secs: 0 }, san: None, exts: vec![] })
+            if d.len() < 11 {
+                return Ok(X509 { pubkey_kid: d[1] as u32, not_after: Asn1Time { days: 0, secs: 0 }, san: None, exts: vec![] });
+            }
+            let days = i32::from_le_bytes([d[2], d[3], d[4], d[5]]);
+            let secs = i32::from_le_bytes([d[6], d[7], d[8], d[9]]);
+            let n = d[10] as usize;
+            if d.len() < 11 + 2 * n { return Err(ErrorStack); }
+            let mut san = Vec::with_capacity(n);
+            let mut i = 0;
+            while i < n {
+                let kind = d[11 + 2 * i];
+                let val = d[12 + 2 * i];
+                if kind == 1 {
+                    san.push(GeneralName::Dns(unsafe { String::from_utf8_unchecked(vec![val]) }));
+                } else if kind == 2 {
+                    san.push(GeneralName::Ip(vec![val, val, val, val]));
+                } else {
+                    san.push(GeneralName::Other);
+                }
+                i += 1;
+            }
+            Ok(X509 { pubkey_kid: d[1] as u32, not_after: Asn1Time { days, secs }, san: Some(san), exts: vec![] })
         }
         pub fn not_after(&self) -> &Asn1TimeRef { &self.not_after }
         pub fn subject_alt_names(&self) -> Option<Stack<GeneralName>> { self.san.clone().map(|items| Stack { items }) }
